@@ -14,6 +14,7 @@ META = {
     "assumptions": [],
 }
 
+MATCHER_ANCHORS = ("try_insert_compatible_slotmap_bij", "ematch_impl", "ematch_node", "get_group_compatible_weak_variants", "nullify_app_ids")
 BAD_ADAPTORS = {"filter", "filter_map", "take", "skip", "step_by", "take_while", "skip_while", "map_while", "find", "find_map", "nth", "last", "next_back", "truncate"}
 
 
@@ -86,7 +87,7 @@ def m2(ctx):
 @rule("M3", doc="the node matcher ranges over all weak variants and all children; skips: shape mismatch, slot-bijection conflict")
 def m3(ctx):
     crate = ctx.lib()
-    b = fn(crate, "ematch_node", "rewrite/ematch.rs")
+    b = mir.inline_view(crate, fn(crate, "ematch_node", "rewrite/ematch.rs"), keep=MATCHER_ANCHORS)
     lp = _loop_over(b, "get_group_compatible_weak_variants")
     if lp is None:
         raise mir.AnchorMissing("loop over get_group_compatible_weak_variants in ematch_node")
@@ -113,7 +114,7 @@ def m3(ctx):
             continue
         # inner loops may `continue 'nodeloop` (slot conflict) but must not break out to after the variant loop
         pass
-    rec = [c for c in b.calls if c.callee and c.callee.name == "ematch_impl"]
+    rec = [c for c in b.all_calls() if c.callee and c.callee.name == "ematch_impl"]
     ctx.check(len(rec) >= 1, "recursion", "each child is matched recursively against its child pattern", "ematch_node no longer recurses into the children", where_of(b))
 
 
